@@ -1,6 +1,8 @@
 (** C18 -- core options mean the same anywhere; task tokens and the remainder
     stay intact.  Statements only; proofs in Proofs/C18_parser.v. *)
 From InvokeVerif Require Import Corr.C18Corr Proofs.C07_fuel Proofs.C18_parser.
+From InvokeVerif Require Import Spec.C01Spec Proofs.C01_steps Proofs.C01_occ Proofs.C01_roundtrip
+     Proofs.C01_final Proofs.C18_placement.
 
 (** Remainder (full): everything after the first bare "--" is the remainder,
     verbatim; and the parse of the rest is a function of the tokens before it. *)
@@ -91,6 +93,89 @@ Theorem C18_placement_step_partial : forall p m k c ic tok i r,
   handle p tok m =
     Ok (put_arg (set_flag m (Some (0, i)) false) (0, i) (mkRArg (r_spec r) true (ABool true))).
 Proof. exact core_bool_flag_in_task_context. Qed.
+
+(** Placement equivalence, the proved part (task-parsing pass, end to end):
+    for every simple invocation (the C01 fragment: any number of calls, --flag /
+    --no-flag / --name value / --name=value in any order) and every exact
+    spelling [tok] of a boolean non-help option of the initial context that the
+    task does not shadow and that is not a task name: putting [tok] first, or
+    after ANY complete item of ANY call, gives literally the same parse result
+    -- the initial context with exactly that option set, and exactly the
+    expected calls.  ([spell], [expected], [simple_guard]: Spec/C01Spec.v,
+    Proofs/C01_final.v.)
+    MISSING for full strength: value-taking core options, spellings other than
+    the exact flag (clusters), richer task spellings, and the composition with
+    the core pass + _update_core_context (covered by the correspondence and the
+    bounded sweep only); and the three findings. *)
+Theorem C18_placement_equiv_partial :
+  forall (cs : list ctxspec) (ic : ctxspec) (tok : string) (i : nat) (r : rarg),
+    clean_flag tok = true ->
+    find_flag (rc_args (init_ctx ic)) tok = Some i ->
+    nth_error (rc_args (init_ctx ic)) i = Some r ->
+    a_kind (r_spec r) = KBool -> a_incrementable (r_spec r) = false ->
+    String.eqb (arg_name (r_spec r)) "help" = false ->
+    forall calls1 t asn items1 items2 calls2 c,
+      let inv := calls1 ++ mkCall t asn (items1 ++ items2) :: calls2 in
+      simple_guard cs ic inv = true ->
+      nth_error cs t = Some c ->
+      find_flag_spec (cx_args c) tok = None ->
+      find (is_inverse_of tok) (cx_args c) = None ->
+      is_ctx_name cs tok = false ->
+      exists res,
+        parser_parse cs (Some ic) false (tok :: spell cs inv) = Ok res /\
+        parser_parse cs (Some ic) false
+          (spell cs calls1 ++ (asn :: flat_map (spell_item c) items1)
+           ++ tok :: flat_map (spell_item c) items2 ++ spell cs calls2) = Ok res /\
+        map obs_of_ctx (tl (pr_ctxs res)) = expected cs inv.
+Proof. exact core_flag_placement_equiv. Qed.
+
+(** ... and what that common result is: the option set, nothing else touched. *)
+Theorem C18_core_flag_inside_task_partial :
+  forall (cs : list ctxspec) (ic : ctxspec) (tok : string) (i : nat) (r : rarg),
+    clean_flag tok = true ->
+    find_flag (rc_args (init_ctx ic)) tok = Some i ->
+    nth_error (rc_args (init_ctx ic)) i = Some r ->
+    a_kind (r_spec r) = KBool -> a_incrementable (r_spec r) = false ->
+    String.eqb (arg_name (r_spec r)) "help" = false ->
+    forall calls1 t asn items1 items2 calls2 c,
+      let inv := calls1 ++ mkCall t asn (items1 ++ items2) :: calls2 in
+      simple_guard cs ic inv = true ->
+      nth_error cs t = Some c ->
+      find_flag_spec (cx_args c) tok = None ->
+      find (is_inverse_of tok) (cx_args c) = None ->
+      is_ctx_name cs tok = false ->
+      exists res,
+        parser_parse cs (Some ic) false
+          (spell cs calls1 ++ (asn :: flat_map (spell_item c) items1)
+           ++ tok :: flat_map (spell_item c) items2 ++ spell cs calls2) = Ok res /\
+        pr_ctxs res = set_core (init_ctx ic) i r :: map (final_ctx cs) inv /\
+        map obs_of_ctx (tl (pr_ctxs res)) = expected cs inv /\
+        pr_unparsed res = [] /\ pr_remainder res = "".
+Proof. exact core_flag_placed. Qed.
+
+(** Non-vacuity: "-e" (echo) of the real core context, placed in the middle of
+    the second call of a three-call chain. *)
+Example C18_placement_hypotheses_inhabited :
+  exists res,
+    parser_parse ex_cs (Some core_ctx) false
+      ["-e"; "b"; "-i"; "a"; "--clean"; "deploy"; "-t=prod"; "build"] = Ok res /\
+    parser_parse ex_cs (Some core_ctx) false
+      ["b"; "-i"; "a"; "-e"; "--clean"; "deploy"; "-t=prod"; "build"] = Ok res.
+Proof.
+  destruct (core_flag_placement_equiv ex_cs core_ctx "-e" 5
+              (init_arg (mkArg ["echo"; "e"] KBool (ABool false) false false false None))
+              eq_refl eq_refl eq_refl eq_refl eq_refl eq_refl
+              [] 0 "b" [One (mkOcc 4 1 FNext (VS "a"))] [One (mkOcc 2 0 FBare (VB true))]
+              [mkCall 1 "deploy" [One (mkOcc 0 1 FEq (VS "prod"))]; mkCall 0 "build" []]
+              (mkCtx (Some "build") ["b"]
+                 [mkArg ["name"; "n"] KStr (AStr "x") false false false None;
+                  mkArg ["jobs"; "j"] KInt (AInt 1%Z) false false false None;
+                  mkArg ["clean"; "c"] KBool (ABool false) false false false None;
+                  mkArg ["color"] KBool (ABool true) false false false None;
+                  mkArg ["inc-dir"; "i"] KList (AList []) false false false (Some "inc_dir")])
+              eq_refl eq_refl eq_refl eq_refl eq_refl) as [res [P1 [P2 _]]].
+  exists res. split; [exact P1 | exact P2].
+Qed.
 
 (** A TEST, not the property: all 440 combinations of (core option except
     --help) x (long/short; spaced, "=", glued) x (8 boundaries of a fixed
